@@ -891,9 +891,12 @@ impl Gen {
             self.any_account(names)
         };
         let bps = if self.rng.chance(1, 8) { *self.rng.pick(&BAD_RATES) } else { *self.rng.pick(&RATES) };
-        let payout = match self.rng.below(10) {
+        let payout = match self.rng.below(12) {
             0 => self.user(names),
             1 => "P".to_string(),
+            // a payout address that is itself a contract
+            2 => names.hostile.clone(),
+            3 => names.cw20s[0].clone(),
             _ => self.rng.pick(&PAYOUTS).to_string(),
         };
         let target = match self.rng.below(14) {
@@ -1264,7 +1267,9 @@ impl Gen {
         let tok = |who: &str, c: &str| o.nft_owner.iter().find(|(x, ow)| x.0 == c && ow.as_str() == who).map(|(x, _)| x.clone());
         let a1 = self.amount().max(10_000);
         let a2 = self.amount().max(10_000);
-        let mut ask = AskSpec { native: vec![("uatom".into(), a2)], ..Default::default() };
+        // sometimes only one side carries fungibles (the other side's royalties then have nothing to be paid from)
+        let ask_has_coins = !self.rng.chance(1, 3);
+        let mut ask = if ask_has_coins { AskSpec { native: vec![("uatom".into(), a2)], ..Default::default() } } else { AskSpec::default() };
         for c in &b_set {
             if let Some(x) = tok("user2", &names.colls[*c]) {
                 ask.nfts.push(x);
@@ -1284,11 +1289,14 @@ impl Gen {
             }
         }
         self.script.push_back(Op::tx("user0", m, msgs::finalize(lid, 7200), vec![]));
-        self.script.push_back(Op::tx("user2", m, msgs::create_bucket(bid), vec![fund("uatom", a2)]));
         let mut order = ask.nfts.clone();
         self.rng.shuffle(&mut order);
-        for x in &order {
-            self.script.push_back(Op::tx("user2", &x.0, msgs::cw721_send(m, &x.1, &msgs::inner_add_to_bucket_cw721(bid)), vec![]));
+        if ask_has_coins {
+            self.script.push_back(Op::tx("user2", m, msgs::create_bucket(bid), vec![fund("uatom", a2)]));
+        }
+        for (i, x) in order.iter().enumerate() {
+            let inner = if i == 0 && !ask_has_coins { msgs::inner_create_bucket_cw721(bid) } else { msgs::inner_add_to_bucket_cw721(bid) };
+            self.script.push_back(Op::tx("user2", &x.0, msgs::cw721_send(m, &x.1, &inner), vec![]));
         }
         self.script.push_back(Op::tx("user2", m, msgs::buy(lid, bid), vec![]));
     }
@@ -1303,6 +1311,13 @@ impl Gen {
         let mut s = *self.rng.pick(&targets);
         let max_n = names.colls.len();
         let mut rates: Vec<u64> = vec![];
+        if max_n >= 21 && self.rng.chance(1, 3) {
+            // many collections at a moderate rate: over the cap in total, although any 20 of them are not
+            let n = self.rng.range(21, max_n.min(25) as u64) as usize;
+            let r = *self.rng.pick(&[240u64, 250, 245, 200, 239]);
+            rates = vec![r; n];
+            s = 0;
+        }
         while s > 0 && rates.len() < max_n {
             if s >= 310 {
                 rates.push(300);
@@ -1319,7 +1334,14 @@ impl Gen {
         self.rng.shuffle(&mut rates);
         let adm = ADMINS[0];
         for (i, r) in rates.iter().enumerate() {
-            let payout = if self.rng.chance(1, 4) { PAYOUTS[0].to_string() } else { self.rng.pick(&PAYOUTS).to_string() };
+            let payout = match self.rng.below(10) {
+                0 | 1 => PAYOUTS[0].to_string(),
+                // royalties flowing back to one of the trading parties
+                2 => "user0".to_string(),
+                3 => "user1".to_string(),
+                4 if self.rng.chance(1, 2) => "user2".to_string(),
+                _ => self.rng.pick(&PAYOUTS).to_string(),
+            };
             self.script.push_back(Op::tx(adm, &names.registry, msgs::reg_register(&names.colls[i], &payout, *r), vec![]));
         }
         let m = &names.market;
